@@ -7,6 +7,7 @@ package main
 // controller, through the public API.
 
 import (
+	"encoding/json"
 	"fmt"
 	"sort"
 	"sync"
@@ -47,6 +48,8 @@ type regOut struct {
 	Live           []string `json:"-"`
 	Panic          string   `json:"panic,omitempty"`
 	ClosedReturned string   `json:"closed_scope_returned,omitempty"`
+	Mixed          string   `json:"scope_shared_by_identities,omitempty"`
+	WrongTags      string   `json:"wrong_tags,omitempty"`
 	Blocked        int      `json:"blocked_steps"`
 	Ambiguous      bool     `json:"ambiguous,omitempty"` // two goroutines were blocked at once: executed order not determined
 }
@@ -104,6 +107,7 @@ type regRun struct {
 	keyNum map[string]int64
 	note   map[uint64]int64 // goroutine id -> key number of the last visited entry
 	last   []int            // last label per thread
+	sanTab []int64          // key number of the sanitized form of each spelling
 }
 
 func (r *regRun) objOf(s tally.Scope, spell int) int {
@@ -139,6 +143,7 @@ func newRegRun(c *regCase) *regRun {
 	// key strings of every spelling (raw) and of its sanitized form
 	r.keyNum[tally.KeyForPrefixedStringMap("", nil)] = 0
 	tab := regSanTable(c)
+	r.sanTab = tab
 	var s tally.Sanitizer = tally.NewNoOpSanitizer()
 	if c.San {
 		s = tally.NewSanitizer(*regSanOpts)
@@ -174,6 +179,9 @@ func (r *regRun) app(prog []regOp) func() {
 				curObj = r.objOf(cur, o.K)
 				r.mu.Lock()
 				r.out.Gets = append(r.out.Gets, int64(curObj))
+				if first := r.out.Objs[curObj].Spell; first >= 0 && r.sanTab[first] != r.sanTab[o.K] && r.out.Mixed == "" {
+					r.out.Mixed = fmt.Sprintf("object %d was returned for spelling %q and for spelling %q, which are different identities", curObj, string(r.c.Spell[first]), string(r.c.Spell[o.K]))
+				}
 				if closedBefore[r.out.Objs[curObj].ID] && r.out.ClosedReturned == "" {
 					r.out.ClosedReturned = fmt.Sprintf("requesting spelling %q returned object %d, whose Close had been called before the request", string(r.c.Spell[o.K]), curObj)
 				}
@@ -304,6 +312,19 @@ func (r *regRun) collect() {
 	alloc := map[int64]string{}
 	del := map[string]int64{}
 	for _, e := range r.log.Snapshot() {
+		if (e.K == 1 || e.K == 11) && len(e.S) >= 3 {
+			// the tag delivered with counter c<obj> must be the sanitized spelling the object was created for
+			var oi int
+			if _, err := fmt.Sscanf(e.S[0], "c%d", &oi); err == nil && oi > 0 && oi < len(r.out.Objs) && r.out.Objs[oi].Spell >= 0 {
+				want := string(r.c.Spell[r.out.Objs[oi].Spell])
+				if r.c.San {
+					want = tally.NewSanitizer(*regSanOpts).Value(want)
+				}
+				if (e.S[1] != "k" || e.S[2] != want) && r.out.WrongTags == "" {
+					r.out.WrongTags = fmt.Sprintf("counter of object %d was delivered with tags %q, expected k=%q", oi, e.S[1:], want)
+				}
+			}
+		}
 		switch e.K {
 		case 1:
 			del[e.S[0]] += e.I[0]
@@ -334,6 +355,12 @@ func regPredicate(out *regOut) string {
 	if out.Panic != "" {
 		return "panic: " + out.Panic
 	}
+	if out.Mixed != "" {
+		return out.Mixed + " (different identities never share a scope)"
+	}
+	if out.WrongTags != "" {
+		return out.WrongTags
+	}
 	if out.ClosedReturned != "" {
 		return out.ClosedReturned + " (a scope obtained after Close must be functional)"
 	}
@@ -362,4 +389,38 @@ func regPredicate(out *regOut) string {
 		}
 	}
 	return ""
+}
+
+// regCrossStream runs registry scenarios (obtain / record / Close / obtain again interleaved
+// with report passes under the schedule controller) for properties whose statement also has
+// to survive such cycles: identities must keep their own scope, tags and deliveries (C04, C05).
+// Direct predicate only.
+func regCrossStream(ctx *Ctx, n int, pred string) {
+	for k := 0; k < n; k++ {
+		rc := c07Gen(ctx.R, ctx.Thorough())
+		if k%4 == 3 {
+			rc.Shards = []int{2, 16}[ctx.R.Intn(2)]
+		}
+		out, _ := c07Exec(&rc, true)
+		fail := regPredicate(&out)
+		cc := rc
+		cc.Sched = out.Sched
+		ctx.Case(cc, "", "registry-cycles-under-schedule", "")
+		if fail != "" {
+			ctx.Fail(pred, "registry cycles: "+fail, cc, out)
+		}
+	}
+}
+
+// regReplay re-runs one registry scenario stored in a replay file.
+func regReplay(ctx *Ctx, pred string) {
+	var rc regCase
+	if err := json.Unmarshal(ctx.Replay, &rc); err != nil {
+		fatal(err)
+	}
+	out, _ := c07Exec(&rc, true)
+	ctx.Case(rc, "", "registry-cycles-under-schedule", "")
+	if fail := regPredicate(&out); fail != "" {
+		ctx.Fail(pred, "registry cycles: "+fail, rc, out)
+	}
 }
